@@ -338,6 +338,14 @@ func hookTemplates() []template {
 		c.Steps = []Step{stLAUNCH, await("ready", 1, 5000), stCONFIGURE, stSTART, stTRIGGER, stSTOP, await("terminal", 1, 8000), stRESET, stKILL}
 		c.JudgeSurvivors = true
 	})
+	add("retrigger-while-running", childVar{"exit-0", func(ch *ChildSpec) {}}, func(r *rand.Rand, c *Case) {
+		// a hook of a transition that happens again before the previous run of the hook has ended: two runs
+		// of one task object overlap; each ends with its own report, and the kill afterwards finds nothing
+		c.Child.LifeMs = u(r, 500, 800)
+		c.Steps = []Step{stLAUNCH, await("ready", 1, 5000), stTRIGGER, await("child-started", 1, 5000), sleepStep(u(r, 100, 300)), stTRIGGER,
+			await("terminal", 2, 8000), sleepStep(u(r, 0, 200)), stKILL}
+		c.JudgeSurvivors = true
+	})
 	add("kill-never-triggered", cvPlain, func(r *rand.Rand, c *Case) {
 		c.Steps = []Step{stLAUNCH, sleepStep(u(r, 0, 400)), stKILL}
 		c.JudgeSurvivors = true
